@@ -1,7 +1,23 @@
 """C15 — MultiKeyDict / StrategyDict coherence.  A case is a whole history; impl, three-map
-model and abstract spec are observed after every step."""
+model and abstract spec are observed after every step.
+
+Dimensions of a history (fields of a case, all optional):
+  vf     value universe.  The integer `v` of an operation is an EQUALITY CLASS; every assignment builds a
+         fresh object of that class, so equality and identity differ:  mk: int | num (1 / 1.0 / True) |
+         tuple | str | bound | scale;  sd: func (identity == equality) | bound (a bound method fetched
+         again) | scale (callable instances with __eq__/__hash__) | mixed | picky (== with a foreign
+         type raises)
+  kf     key universe: plain | fresh (an equal string built again for every use) | int (mk only)
+  decoy  a second dict of the same class receives mirrored operations (sharing the value objects) and
+         lookups between the steps; the dict under test must not notice
+  view   "all" | "last" | {"every": n}: after which steps the whole state is observed
+and of an operation: rejected operations (`setu` unhashable value, `setbk` unhashable key in the tuple,
+`setns` non-string StrategyDict name, `bad` lookup / deletion with an unhashable operand) — whatever
+raises must leave every observable unchanged; `fork` (mk) continues on `MultiKeyDict(d)` and keeps
+watching the original."""
 import gc
 import itertools
+import json
 import common
 from common import err_kind
 
@@ -25,39 +41,72 @@ ID = "C15"
 RULE = ("exhaustive histories over small universes (mk: 3 keys x 2 values, tuples of length <= 2, "
         "24 assignments + 3 deletions, depth <= 3 (thorough: depth 4, and 3 values x 3 keys depth 4); "
         "sd: 2 names x 2 strategies incl. attribute / default manipulation, 16 operations, depth <= 3 "
-        "(thorough: 4)) plus random histories (length <= 40, 6 keys, 4 values, tuples with "
-        "repeats, lookups interleaved) plus a small malformed stream (empty key tuple); a case is "
-        "non-trivial when at least one assignment succeeded and the final dict is non-empty or a "
-        "KeyError/AttributeError was observed; distinct = distinct JSON history")
+        "(thorough: 4); the sd enumeration again with equal-but-not-identical strategies (bound methods fetched "
+        "again / callable instances with __eq__) where a class is stored twice; the mk enumeration (depth <= 2, a fifth of depth 3) "
+        "with fresh equal keys and values; mk and sd enumerations with "
+        "rejected operations (unhashable value, unhashable key in the tuple, non-string name, unhashable lookup "
+        "operand) mixed in, depth <= 3) plus random histories (length <= 40, 6 keys, 4 values, tuples with "
+        "repeats, lookups interleaved; value universes int / 1-1.0-True / fresh tuples / fresh strings / bound "
+        "methods / callable instances / ==-raising instances, key universes plain / fresh equal strings / large "
+        "ints, decoy dict sharing the value objects, copy-constructor forks, rejected operations) plus long "
+        "histories (1000-4000 operations over 12 keys, light view after every step, full view every 97th; random histories "
+        "of 20 / 40 operations: full view every 4th step) plus a "
+        "small malformed stream (empty key tuple); a case is non-trivial when at least one assignment succeeded and "
+        "the final dict is non-empty or an exception was observed; distinct = distinct JSON history")
 TRUSTED = [
     "hand-written Lean model ALV/Model/C15.lean of lazy_core.MultiKeyDict / StrategyDict "
     "(modelled, not verified: Python dict = insertion-ordered association list; vars(self) = association "
-    "list with the attribute `default` as a distinguished name; an exception leaves the model state unchanged)",
+    "list with the attribute `default` as a distinguished name; a KeyError / AttributeError leaves the model state "
+    "unchanged; an operand that cannot be hashed is a separate constructor of the operation type, raising where the "
+    "code first hashes it — half-way for `setBadKey` / `setRefused`, as coded today)",
     "observations coming out of hash containers are compared sorted; the order inside a key tuple is compared exactly",
+    "equality vs identity: the Lean value type is the type of EQUALITY CLASSES (`==` of the Python values); the model never "
+    "looks at which of several equal objects is stored, so 'the behaviour depends only on the classes' holds for the model "
+    "by construction (nothing to prove).  That the REAL code compares by `==` and not by `is` is what the equal-but-not-"
+    "identical universes of the tie test; it is not proved",
+    "operations refused for reasons the model has no notion of (a non-string StrategyDict name, a strategy whose `==` raises) "
+    "are mapped to the model's / spec's generic rejected operation (no-op) on the strength of the impl's own exception: the "
+    "tie checks 'if it raised, nothing changed', not whether it had to raise",
+    "independence of two dicts alive at once (decoy) and of a copy made by MultiKeyDict(d) (fork) holds for the model by "
+    "construction (a state is a value); the tie tests it on the real code",
 ]
 ASSUMPTIONS = [
-    "keys are non-tuple hashables of one type (tie: short strings), values hashables of one type (tie: small ints; "
-    "for StrategyDict distinct function objects) - cross-type equalities such as 1 == 1.0 == True are outside the tie",
+    "keys are non-tuple hashables of one type (tie: short strings, fresh equal strings, large ints), values hashables; "
+    "cross-type equal VALUES (1 == 1.0 == True) form ONE group and the property fixes d[k] only up to == : which of the "
+    "equal objects is handed back (the code: the most recently assigned one of the group) is not fixed and not compared; "
+    "cross-type equal KEYS are outside the tie",
     "key tuples are non-empty (the empty tuple is exercised separately, see known findings)",
     "StrategyDict names are strings different from 'default' and from every attribute/method of the class; "
-    "stored strategies are never the class-level default lambda",
-    "only the operations the property names (item assignment / deletion / lookup, key2keys, value2keys, len, iteration, "
-    "keys/values/items views; for StrategyDict attribute get/set/del, default, call, the strategy decorator); the "
-    "mutators inherited from dict (update, pop, popitem, clear, setdefault) bypass the three maps and are outside",
+    "stored strategies are never the class-level default lambda; an assignment naming a non-string is expected to be "
+    "refused as a whole (the code raises TypeError today, see known findings)",
+    "an operation that raises (missing key, unhashable key / value, a value's own __hash__ or __eq__ raising) must leave "
+    "every observable of the dict unchanged; __hash__ of a stored value is stable (an object that hashes at one moment and "
+    "raises at another breaks Python's dict itself and is outside)",
+    "only the operations the property names — 'any sequence of item assignments (single key or key tuple), deletions and "
+    "lookups' — (item assignment / deletion / lookup, key2keys, value2keys, len, iteration, keys/values/items views, the "
+    "copy constructor MultiKeyDict(d); for StrategyDict attribute get/set/del, default, call, the strategy decorator).  "
+    "DECISION: the mutators inherited from dict (update, pop, popitem, clear, setdefault, and the lookups get / in / copy, "
+    "which see the key-TUPLE storage) are NOT overridden by the class, bypass the three maps and are outside the property; "
+    "the check records that they are still inherited (histogram `inherited_from_dict`) and never calls them",
 ]
 
 MANIFEST = {
     "text": ("Lean 4 theorems, for every key/value type with decidable equality and every history length: the "
              "coherence invariant of the three maps of MultiKeyDict is inductive; every operation of MultiKeyDict and "
-             "StrategyDict (assignment with a key tuple, deletion, lookups, attribute get/set/del, default, call) "
-             "refines an abstract key->value map ordered by recency (+ attribute map + default), with equal results "
-             "incl. KeyError / AttributeError / NotImplemented; corollaries: d[k] = last assigned value, one tuple per "
+             "StrategyDict (assignment with a key tuple, deletion, lookups, attribute get/set/del, default, call, and the "
+             "operations REJECTED because an operand cannot be hashed) refines an abstract key->value map ordered by recency "
+             "(+ attribute map + default), with equal results incl. KeyError / AttributeError / NotImplemented / rejection; "
+             "corollaries: d[k] = last value assigned by an assignment that did not raise, one tuple per "
              "value in recency order, len/iteration count values, default = first stored strategy while it keeps a "
-             "name and re-chosen when it loses all.  Tied to /repo by exhaustive small-universe and random histories."),
+             "name and re-chosen when it loses all; a rejected operation is a no-op; the assignments that today fail "
+             "half-way (unhashable key in the tuple, unhashable strategy) keep the maps coherent and refine the deletion "
+             "of the keys processed so far.  Tied to /repo by exhaustive small-universe, random and long histories over value "
+             "universes in which equality and identity differ."),
     "note": ("Trusted: Lean kernel (axioms propext, Classical.choice, Quot.sound), the Python correspondence harness; the "
              "model (Python dict = insertion-ordered association list, vars(self) = association list) is hand written "
              "and validated against the code differentially after every step of every history, incl. the private maps "
-             "_keys_dict / _inv_dict.  Outside the theorems: the empty key tuple (recorded known finding), keys that "
+             "_keys_dict / _inv_dict.  Values are modelled up to == (which equal object is stored is not modelled).  Outside "
+             "the theorems: the empty key tuple and the half-way failing assignments (recorded known findings), keys that "
              "are themselves tuples, cross-type equal keys (1 == 1.0 == True), StrategyDict names colliding with "
              "class attributes, and the inherited dict mutators (update, pop, clear, setdefault) which bypass the maps."),
     "technique": "Lean 4 invariant + forward-simulation (refinement) proof over an executable model; differential history correspondence",
@@ -65,6 +114,222 @@ MANIFEST = {
 
 MK_KEYS = ["a", "b", "c"]
 SD_KEYS = ["a", "b"]
+MK_VF = ("int", "num", "tuple", "str", "bound", "scale")
+SD_VF = ("func", "bound", "scale", "mixed", "picky")
+UNHASHABLE = ("list", "dict", "set", "nohash", "badhash")
+BAD_MK = ("get", "del", "k2k", "v2k", "gett")
+BAD_SD = ("get", "del", "k2k", "v2k")
+REJ_OPS = ("setu", "setbk", "setns", "bad")
+LIGHT = ("res", "items", "attrs", "default", "alias")
+
+
+# ----------------------------------------------------------------------------
+# the value / key universes
+# ----------------------------------------------------------------------------
+class Boom(Exception):
+    """raised by the test values' own __hash__ / __eq__"""
+
+
+class _Amp(object):
+    """`amp.apply` is a new bound method at every attribute read; they are == and hash alike"""
+
+    def __init__(self, ident):
+        self.ident = ident
+
+    def apply(self, *args, **kwargs):
+        return ("called", self.ident)
+
+
+class _Scale(object):
+    """callable with value semantics"""
+
+    def __init__(self, g):
+        self.g = g
+
+    def __call__(self, *args, **kwargs):
+        return ("called", self.g)
+
+    def __eq__(self, other):
+        return isinstance(other, _Scale) and self.g == other.g
+
+    def __ne__(self, other):
+        return not self == other
+
+    def __hash__(self):
+        return hash(("Scale", self.g))
+
+
+class _Picky(object):
+    """callable with value semantics that refuses to be compared with anything foreign"""
+
+    def __init__(self, g):
+        self.g = g
+
+    def __call__(self, *args, **kwargs):
+        return ("called", self.g)
+
+    def __eq__(self, other):
+        if not isinstance(other, _Picky):
+            raise Boom("cannot compare a _Picky with %s" % type(other).__name__)
+        return self.g == other.g
+
+    def __ne__(self, other):
+        return not self == other
+
+    def __hash__(self):
+        return hash(("Picky", self.g))
+
+
+class _NoHash(object):
+    """callable defining __eq__ only: Python makes it unhashable"""
+
+    def __init__(self, g):
+        self.g = g
+
+    def __call__(self, *args, **kwargs):
+        return ("called", self.g)
+
+    def __eq__(self, other):
+        return isinstance(other, _NoHash) and self.g == other.g
+
+
+class _BadHash(object):
+    """callable whose __hash__ raises its own exception"""
+
+    def __call__(self, *args, **kwargs):
+        return ("called", -1)
+
+    def __hash__(self):
+        raise Boom("hash")
+
+
+def _unhashable(kind):
+    if kind == "list":
+        return [0]
+    if kind == "dict":
+        return {}
+    if kind == "set":
+        return set()
+    if kind == "nohash":
+        return _NoHash(1)
+    if kind == "badhash":
+        return _BadHash()
+    raise ValueError("unknown unhashable kind %r" % (kind,))
+
+
+def _expect(kind, bad_key=False):
+    """the exceptions that make the step the predicted rejection (with an unhashable key AND an unhashable
+    value either may be hashed first)"""
+    if kind != "badhash":
+        return ("TypeError",)
+    return ("OTHER:Boom", "TypeError") if bad_key else ("OTHER:Boom",)
+
+
+_TYPE_ERROR = ("TypeError",)
+# a lookup / deletion with an unhashable operand: the code raises TypeError; answering "not there" (KeyError) is
+# as good for the property — what matters is that nothing changes
+_NOT_THERE = ("TypeError", "KeyError")
+
+
+def _make_function(i):
+    def strategy_function(*args, **kwargs):
+        return ("called", i)
+    strategy_function.ident = i
+    return strategy_function
+
+
+class _U(object):
+    """the Python objects behind the key names / value classes of one history"""
+
+    def __init__(self, c):
+        self.entry = c["entry"]
+        self.vf = c.get("vf") or ("int" if self.entry == "mk" else "func")
+        self.kf = c.get("kf", "plain")
+        self.names = list(c["keys"])
+        self.funcs = {}
+        self.amps = {}
+
+    # keys --------------------------------------------------------------------
+    def key(self, name):
+        if name is None:
+            return []                                  # the unhashable key
+        if self.kf == "plain":
+            return name
+        if self.kf == "fresh":
+            return "".join(("K_", name))               # a new, equal string object every time
+        if name not in self.names:
+            self.names.append(name)
+        return 10 ** 6 + self.names.index(name)        # a new, equal int object every time
+
+    def kdec(self, k):
+        if self.kf == "plain":
+            if isinstance(k, str):
+                return k
+        elif self.kf == "fresh":
+            if isinstance(k, str) and k.startswith("K_"):
+                return k[2:]
+        elif isinstance(k, int) and not isinstance(k, bool) and 0 <= k - 10 ** 6 < len(self.names):
+            return self.names[k - 10 ** 6]
+        return "?%r" % (k,)
+
+    def ktuple(self, names):
+        return tuple(self.key(n) for n in names)
+
+    # values ------------------------------------------------------------------
+    def func(self, v):
+        f = self.funcs.get(v)
+        if f is None:
+            f = self.funcs[v] = _make_function(v)
+        return f
+
+    def flavour_of(self, v):
+        vf = self.vf
+        if vf == "mixed":
+            return ("func", "bound", "scale")[v % 3]
+        if vf == "picky":
+            return "pickyobj" if v % 2 == 0 else "func"
+        return vf
+
+    def val(self, v, r=0):
+        """an object of class `v`; a NEW one wherever the flavour allows it"""
+        vf = self.flavour_of(v)
+        if vf == "int":
+            return v
+        if vf == "num":
+            return (v, float(v), bool(v) if v in (0, 1) else v)[r % 3]
+        if vf == "tuple":
+            return (v, "x")
+        if vf == "str":
+            return "".join(("v", str(v)))
+        if vf == "func":
+            return self.func(v)
+        if vf == "bound":
+            a = self.amps.get(v)
+            if a is None:
+                a = self.amps[v] = _Amp(v)
+            return a.apply
+        if vf == "scale":
+            return _Scale(v)
+        if vf == "pickyobj":
+            return _Picky(v)
+        raise ValueError("unknown value flavour %r" % (vf,))
+
+    def cls(self, o):
+        if isinstance(o, (int, float)):
+            return int(o)
+        if isinstance(o, tuple) and len(o) == 2 and o[1] == "x":
+            return o[0]
+        if isinstance(o, str) and o[:1] == "v":
+            return int(o[1:])
+        if isinstance(o, (_Scale, _Picky)):
+            return o.g
+        a = getattr(o, "__self__", None)
+        if isinstance(a, _Amp):
+            return a.ident
+        i = getattr(o, "ident", None)
+        if i is not None and self.funcs.get(i) is o:
+            return i
+        raise TypeError("not one of the test values: %r" % (o,))
 
 
 # ----------------------------------------------------------------------------
@@ -105,18 +370,23 @@ def _sd_ops(keys, vals):
 def _universe(ops, extra_keys=("zz",), extra_vals=(9,)):
     ks, vs = [], []
     for op in ops:
-        if op[0] in ("set", "sets"):
+        o = op[0]
+        if o in ("set", "sets"):
             cand_k = op[1] if isinstance(op[1], list) else [op[1]]
             cand_v = [op[2]]
-        elif op[0] in ("del", "get", "k2k", "getattr"):
+        elif o in ("del", "get", "k2k", "getattr"):
             cand_k, cand_v = [op[1]], []
-        elif op[0] in ("setattr", "delattr"):
+        elif o in ("setattr", "delattr"):
             cand_k = [op[1]] if op[1] is not None else []
-            cand_v = [op[2]] if op[0] == "setattr" else []
-        elif op[0] == "gett":
+            cand_v = [op[2]] if o == "setattr" else []
+        elif o == "gett":
             cand_k, cand_v = op[1], []
-        elif op[0] == "v2k":
+        elif o == "v2k":
             cand_k, cand_v = [], [op[1]]
+        elif o == "setu":
+            cand_k, cand_v = [k for k in op[1] if k is not None], []
+        elif o in ("setbk", "setns"):
+            cand_k, cand_v = op[1] + op[2], [op[3]]
         else:
             cand_k, cand_v = [], []
         for k in cand_k:
@@ -128,14 +398,46 @@ def _universe(ops, extra_keys=("zz",), extra_vals=(9,)):
     return ks + [k for k in extra_keys if k not in ks], vs + [v for v in extra_vals if v not in vs]
 
 
-def _case(entry, ops, route="plain", view="all"):
+def _halfway_prone(entry, ops, vf):
+    """histories holding an operation that the code of today fails half-way (or that is refused on the
+    impl's own say-so): always observed after every step, so that the first difference is AT that step"""
+    if vf == "picky":
+        return True
+    for op in ops:
+        if op[0] in ("setbk", "setns") or (entry == "sd" and op[0] == "setu"):
+            return True
+    return False
+
+
+def _case(entry, ops, route="plain", view="all", vf=None, kf="plain", decoy=False):
     """view="last": the state is observed after the last step only (exhaustive enumerations contain
-    every prefix as a history of its own); results are observed at every step in both modes"""
+    every prefix as a history of its own); results are observed at every step in all modes"""
     keys, vals = _universe(ops)
     # key tuples looked up as a whole (`d[(a, b)]`): singletons and ordered pairs of the first keys
     ks = keys[:3]
     tuples = [[k] for k in ks] + [[a, b] for a in ks for b in ks if a != b]
-    return {"entry": entry, "ops": ops, "keys": keys, "vals": vals, "tuples": tuples, "route": route, "view": view}
+    if view != "all" and _halfway_prone(entry, ops, vf):
+        view = "all"
+    c = {"entry": entry, "ops": ops, "keys": keys, "vals": vals, "tuples": tuples, "route": route, "view": view}
+    if vf not in (None, "int" if entry == "mk" else "func"):
+        c["vf"] = vf
+    if kf != "plain":
+        c["kf"] = kf
+    if decoy:
+        c["decoy"] = True
+    return c
+
+
+def _recase(c, ops, **kw):
+    """the same kind of history with other operations / one dimension changed"""
+    n = len(ops)
+    view = c.get("view", "all")
+    if isinstance(view, dict) and n <= 60:
+        view = "all"
+    args = {"route": c.get("route", "plain"), "view": view, "vf": c.get("vf"), "kf": c.get("kf", "plain"),
+            "decoy": c.get("decoy", False)}
+    args.update(kw)
+    return _case(c["entry"], ops, **args)
 
 
 def _rand_tuple(rng, keys, maxlen):
@@ -143,20 +445,43 @@ def _rand_tuple(rng, keys, maxlen):
     return [rng.choice(keys) for _ in range(n)]
 
 
-def _rand_mk(rng, nkeys, nvals, length, maxlen):
+def _rand_mk(rng, nkeys, nvals, length, maxlen, rej=0.0, halfway=0.0, fork=0.0):
+    """rej: share of atomically rejected operations (unhashable value, unhashable lookup operand);
+    halfway: share of assignments with an unhashable key in the tuple"""
     keys = ["k%d" % i for i in range(nkeys)]
     vals = list(range(nvals))
     ops = []
     live = []
     for _ in range(length):
         r = rng.random()
+        if r < rej:
+            if rng.random() < 0.6:
+                t = _rand_tuple(rng, live or keys, 3) if rng.random() < 0.8 else _rand_tuple(rng, keys, 3)
+                if rng.random() < 0.15:
+                    t.insert(rng.randrange(len(t) + 1), None)      # an unhashable key as well: the value goes first
+                ops.append(["setu", t, rng.choice(UNHASHABLE)])
+            else:
+                ops.append(["bad", rng.choice(BAD_MK)])
+            continue
+        r = (r - rej) / (1 - rej)
+        if r < halfway:
+            pool = live + keys if live else keys
+            before = [rng.choice(pool) for _ in range(rng.choice([0, 0, 1, 1, 2]))]
+            after = [rng.choice(pool) for _ in range(rng.choice([0, 0, 0, 1]))]
+            ops.append(["setbk", before, after, rng.choice(vals)])
+            continue
+        r = (r - halfway) / (1 - halfway)
+        if r < fork:
+            ops.append(["fork"])
+            continue
+        r = (r - fork) / (1 - fork)
         if r < 0.45:
             t = _rand_tuple(rng, keys, maxlen)
             v = rng.choice(vals)
             if len(t) == 1 and rng.random() < 0.5:
-                ops.append(["sets", t[0], v])
+                ops.append(["sets", t[0], v, rng.randrange(3)])
             else:
-                ops.append(["set", t, v])
+                ops.append(["set", t, v, rng.randrange(3)])
             live = [k for k in live if k not in t] + t
         elif r < 0.65:
             # mostly delete something that may be present
@@ -176,12 +501,27 @@ def _rand_mk(rng, nkeys, nvals, length, maxlen):
     return ops
 
 
-def _rand_sd(rng, nkeys, nvals, length):
+def _rand_sd(rng, nkeys, nvals, length, rej=0.0, halfway=0.0):
     keys = ["n%d" % i for i in range(nkeys)]
     vals = list(range(nvals))
     ops = []
     for _ in range(length):
         r = rng.random()
+        if r < rej:
+            ops.append(["bad", rng.choice(BAD_SD)])
+            continue
+        r = (r - rej) / (1 - rej)
+        if r < halfway:
+            prev = [k for o in ops if o[0] == "set" for k in o[1]] or keys
+            q = rng.random()
+            if q < 0.4:
+                ops.append(["setu", [rng.choice(prev) for _ in range(rng.choice([1, 1, 2]))], rng.choice(UNHASHABLE)])
+            else:
+                before = [rng.choice(prev) for _ in range(rng.choice([0, 1, 1, 2]))]
+                after = [rng.choice(prev) for _ in range(rng.choice([0, 0, 1]))]
+                ops.append(["setbk" if q < 0.7 else "setns", before, after, rng.choice(vals)])
+            continue
+        r = (r - halfway) / (1 - halfway)
         if r < 0.12 and ops:
             # aim at the attribute branches: touch the name used by an earlier assignment
             prev = [o for o in ops if o[0] == "set"]
@@ -212,6 +552,37 @@ def _rand_sd(rng, nkeys, nvals, length):
     return ops
 
 
+def _stores_class_twice(h):
+    seen = set()
+    for op in h:
+        if op[0] in ("set", "setattr"):
+            if op[2] in seen:
+                return True
+            seen.add(op[2])
+    return False
+
+
+# small operation alphabets with rejected operations, for the exhaustive part
+MK_REJ_BASE = [["set", ["a"], 0], ["set", ["a"], 1], ["set", ["b"], 0], ["set", ["b"], 1],
+               ["set", ["a", "b"], 0], ["set", ["b", "a"], 1], ["del", "a"], ["del", "b"]]
+MK_REJ = [["setu", ["a"], "list"], ["setu", ["a", "b"], "dict"], ["setu", ["b", None], "badhash"],
+          ["bad", "get"], ["bad", "del"],
+          ["setbk", [], [], 0], ["setbk", ["a"], [], 0], ["setbk", ["b"], [], 1], ["setbk", [], ["a"], 1],
+          ["setbk", ["b"], ["a"], 0]]
+SD_REJ_BASE = [["set", ["a"], 0], ["set", ["a"], 1], ["set", ["b"], 0], ["set", ["b"], 1], ["set", ["a", "b"], 0],
+               ["del", "a"], ["del", "b"], ["setattr", "a", 1], ["delattr", "a"], ["setattr", None, 1]]
+SD_REJ = [["setu", ["a"], "nohash"], ["setu", ["a", "b"], "badhash"], ["bad", "get"], ["bad", "del"],
+          ["setbk", [], [], 0], ["setbk", ["a"], [], 1], ["setbk", ["b"], ["a"], 0],
+          ["setns", [], [], 0], ["setns", ["a"], [], 1]]
+
+
+def _with_rejected(base, rej, depth):
+    """histories of the given depth over base + rej holding at least one rejected operation"""
+    for h in itertools.product(base + rej, repeat=depth):
+        if any(op[0] in REJ_OPS for op in h):
+            yield [list(op) for op in h]
+
+
 def generate(rng, tier, scale=1):
     cases = []
     quick = tier == "quick"
@@ -225,6 +596,41 @@ def generate(rng, tier, scale=1):
                 cases.append(_case("mk", list(h), view=view))
             for h in itertools.product(sops, repeat=depth):
                 cases.append(_case("sd", list(h), view="all"))
+        # ... again where equality and identity differ: every assignment hands in a NEW equal object
+        for depth in (2, 3):
+            for n, h in enumerate(itertools.product(sops, repeat=depth)):
+                if _stores_class_twice(h):
+                    cases.append(_case("sd", list(h), view="all", vf=("bound", "scale")[(n // 2) % 2],
+                                       kf=("plain", "fresh")[(n // 4) % 2]))
+        for depth in (1, 2):
+            for n, h in enumerate(itertools.product(ops, repeat=depth)):
+                cases.append(_case("mk", list(h), view="all", vf=("tuple", "num", "str", "scale")[n % 4],
+                                   kf=("fresh", "int")[(n // 4) % 2]))
+        if quick:
+            for n, h in enumerate(itertools.product(ops, repeat=3)):
+                if n % 5 == 0:
+                    cases.append(_case("mk", list(h), view="last", vf=("tuple", "num", "str", "scale", "bound")[(n // 5) % 5],
+                                       kf=("fresh", "int", "plain")[(n // 25) % 3]))
+        # ... and with rejected operations mixed in
+        for depth in (1, 2, 3) if not quick else (1, 2):
+            for h in _with_rejected(MK_REJ_BASE, MK_REJ, depth):
+                cases.append(_case("mk", h, view="all" if depth < 3 else "last"))
+        if quick:
+            # depth 3 for mk: the rejected operation after two ordinary ones, and between two
+            for a in MK_REJ_BASE:
+                for b in MK_REJ_BASE:
+                    for z in MK_REJ:
+                        cases.append(_case("mk", [list(a), list(b), list(z)], view="last"))
+                        cases.append(_case("mk", [list(a), list(z), list(b)], view="last"))
+        for depth in (1, 2, 3) if not quick else (1, 2):
+            for h in _with_rejected(SD_REJ_BASE, SD_REJ, depth):
+                cases.append(_case("sd", h, view="all"))
+        if quick:
+            # depth 3 for sd: two ordinary operations, then the rejected one
+            for a in SD_REJ_BASE[:7]:
+                for b in SD_REJ_BASE:
+                    for z in SD_REJ:
+                        cases.append(_case("sd", [list(a), list(b), list(z)], view="all"))
         if not quick:
             for h in itertools.product(ops, repeat=4):
                 cases.append(_case("mk", list(h), view="last"))
@@ -233,20 +639,50 @@ def generate(rng, tier, scale=1):
                 cases.append(_case("mk", list(h), view="last"))
             for h in itertools.product(sops, repeat=4):
                 cases.append(_case("sd", list(h), view="last"))
+            for n, h in enumerate(itertools.product(sops, repeat=4)):
+                if n % 3 == 0 and _stores_class_twice(h):
+                    cases.append(_case("sd", list(h), view="last", vf=("bound", "scale", "mixed")[(n // 3) % 3]))
+            for n, h in enumerate(itertools.product(ops, repeat=3)):
+                cases.append(_case("mk", list(h), view="last", vf=("tuple", "num", "str", "scale", "bound")[n % 5],
+                                   kf=("fresh", "int", "plain")[(n // 5) % 3]))
         # malformed stream: empty key tuple
         for v in (0, 1):
             cases.append(_case("mk", [["set", [], v]], "empty"))
             cases.append(_case("mk", [["set", ["a"], v], ["set", [], v]], "empty"))
             cases.append(_case("mk", [["set", [], 0], ["set", [], 1], ["set", ["a"], v]], "empty"))
+        # long histories over a dozen keys
+        for i in range(3 if quick else 12):
+            n = rng.choice([1000, 2000, 4000]) if i else 4000
+            view = {"every": 97}
+            cases.append(_case("mk", _rand_mk(rng, 12, rng.choice([3, 5]), n, 4, rej=0.02), view=view,
+                               vf=rng.choice(MK_VF), kf=rng.choice(["plain", "fresh", "int"])))
+            cases.append(_case("sd", _rand_sd(rng, 12, rng.choice([3, 5]), n // 2, rej=0.02), view=view,
+                               vf=rng.choice(SD_VF[:4]), kf=rng.choice(["plain", "fresh"])))
     nrand = (1000 if quick else 8000) * scale
+    # (histories of 20 and 40 operations: light view after every step, everything after every 4th)
     for i in range(nrand):
         length = rng.choice([3, 6, 10, 20, 40])
         route = rng.choice(["plain", "plain", "ctor"])
-        cases.append(_case("mk", _rand_mk(rng, rng.choice([2, 4, 6]), rng.choice([1, 2, 4]), length, 4), route))
+        cases.append(_case("mk", _rand_mk(rng, rng.choice([2, 4, 6]), rng.choice([1, 2, 4]), length, 4,
+                                          rej=rng.choice([0, 0, 0.1]), fork=rng.choice([0, 0, 0, 0.05])), route,
+                           view="all" if length <= 10 else {"every": 4},
+                           vf=rng.choice(MK_VF), kf=rng.choice(["plain", "fresh", "int"]),
+                           decoy=rng.random() < 0.2))
     for i in range(nrand):
         length = rng.choice([3, 6, 10, 20, 40])
         route = rng.choice(["plain", "decorator"])
-        cases.append(_case("sd", _rand_sd(rng, rng.choice([2, 3, 5]), rng.choice([2, 3, 4]), length), route))
+        cases.append(_case("sd", _rand_sd(rng, rng.choice([2, 3, 5]), rng.choice([2, 3, 4]), length,
+                                          rej=rng.choice([0, 0, 0.1])), route,
+                           view="all" if length <= 10 else {"every": 4},
+                           vf=rng.choice(SD_VF), kf=rng.choice(["plain", "plain", "fresh"]),
+                           decoy=rng.random() < 0.2))
+    # histories with the assignments that fail half-way today (each is lost for everything after that step)
+    for i in range(nrand // 8):
+        length = rng.choice([3, 6, 10])
+        cases.append(_case("mk", _rand_mk(rng, rng.choice([2, 4]), rng.choice([1, 2, 3]), length, 3, rej=0.1,
+                                          halfway=0.15), vf=rng.choice(MK_VF), kf=rng.choice(["plain", "fresh"])))
+        cases.append(_case("sd", _rand_sd(rng, rng.choice([2, 3]), rng.choice([2, 3]), length, rej=0.05,
+                                          halfway=0.15), vf=rng.choice(SD_VF[:4])))
     return cases
 
 
@@ -262,123 +698,250 @@ def _res(f):
         return {"err": "AttributeError"}
 
 
+def _run(f, expect=None, booms=None, i=None):
+    """the result of one step: the value of f() or the exception it raised.  `expect`: the error kind that
+    makes the step the predicted rejection; without it a `Boom` coming out of a value's own __eq__ is
+    a rejection on the impl's say-so (recorded in `booms`)"""
+    try:
+        return f()
+    except Exception as e:
+        k = err_kind(e)
+        if expect is not None:
+            return {"err": "Rejected" if k in expect else k}
+        if k in ("KeyError", "AttributeError"):
+            return {"err": k}
+        if isinstance(e, Boom) and booms is not None:
+            booms.append(i)
+            return {"err": "Rejected"}
+        raise
+
+
 def _val(v):
     return {"v": v}
 
 
-def _keys(t):
-    if not isinstance(t, tuple):
-        raise TypeError("key tuple expected, got %r" % (t,))
-    return {"t": list(t)}
+def _view_level(c):
+    """step index -> 0 (result only) / 1 (light: items, attrs, default) / 2 (everything); mirrors
+    `viewLevel` of the driver"""
+    view = c.get("view", "all")
+    ops = c["ops"]
+    n = len(ops)
+    every = 1 if view == "all" else 0 if view == "last" else int(view["every"])
+
+    def level(i):
+        if i == n - 1 or ops[i][0] in REJ_OPS or every == 1 or (every != 0 and (i + 1) % every == 0):
+            return 2
+        return 0 if every == 0 else 1
+    return level
 
 
-def _mk_view(d, keys, vals, tuples, enc_v, dec_v):
+def _items(d, u):
+    C, D = u.cls, u.kdec
+    return sorted([[[D(k) for k in kt], C(v)] for kt, v in dict.items(d)])
+
+
+_KEY_ERROR = {"err": "KeyError"}
+_ATTR_ERROR = {"err": "AttributeError"}
+
+
+def _mk_view(d, u, keys, vals, tuples):
+    """everything the property names, through the public accessors (+ the two private maps); written
+    as plain loops: this is the hot spot of the whole check"""
+    C, D = u.cls, u.kdec
+    plain = u.kf == "plain"
+    get, k2k, gett = [], [], []
+    for k in keys:
+        kk = k if plain else u.key(k)
+        try:
+            get.append({"v": C(d[kk])})
+        except KeyError:
+            get.append(_KEY_ERROR)
+        try:
+            k2k.append({"t": [D(x) for x in d.key2keys(kk)]})
+        except KeyError:
+            k2k.append(_KEY_ERROR)
+    for t in tuples:
+        try:
+            gett.append({"v": C(d[tuple(t) if plain else u.ktuple(t)])})
+        except KeyError:
+            gett.append(_KEY_ERROR)
     return {
         "len": len(d),
-        "iter": sorted(enc_v(v) for v in d),
-        "items": sorted([list(kt), enc_v(v)] for kt, v in dict.items(d)),
-        "keytuples": sorted(list(kt) for kt in d.keys()),
-        "values": sorted(enc_v(v) for v in d.values()),
-        "keys_dict": sorted([k, list(t)] for k, t in d._keys_dict.items()),
-        "inv_dict": sorted([enc_v(v), list(t)] for v, t in d._inv_dict.items()),
-        "get": [_res(lambda: _val(enc_v(d[k]))) for k in keys],
-        "k2k": [_res(lambda: _keys(d.key2keys(k))) for k in keys],
-        "v2k": [list(d.value2keys(dec_v(v))) for v in vals],
-        "gett": [_res(lambda: _val(enc_v(d[tuple(t)]))) for t in tuples],
+        "iter": sorted([C(v) for v in d._inv_dict]),
+        "items": _items(d, u),
+        "keytuples": sorted([[D(k) for k in kt] for kt in d.keys()]),
+        "values": sorted([C(v) for v in d.values()]),
+        "keys_dict": sorted([[D(k), [D(x) for x in t]] for k, t in d._keys_dict.items()]),
+        "inv_dict": sorted([[C(v), [D(x) for x in t]] for v, t in d._inv_dict.items()]),
+        "get": get,
+        "k2k": k2k,
+        "v2k": [[D(x) for x in d.value2keys(u.val(v, 1))] for v in vals],
+        "gett": gett,
     }
+
+
+def _rot(c, name):
+    ks = c["keys"]
+    return ks[(ks.index(name) + 1) % len(ks)] if name in ks else name
+
+
+def _quiet(f):
+    try:
+        f()
+    except Exception:
+        pass
+
+
+def _setkey(u, names, single=False):
+    """the key handed to `d[...] = `: a lone key (when asked for) or a tuple"""
+    if single and len(names) == 1:
+        return u.key(names[0])
+    return u.ktuple(names)
+
+
+def _aliasing(c, u):
+    """does the history store one value class through several objects?  (histogram only)"""
+    fl = set()
+    seen = set()
+    for op in c["ops"]:
+        if op[0] in ("set", "sets", "setattr"):
+            if op[2] in seen:
+                fl.add(u.flavour_of(op[2]))
+            seen.add(op[2])
+    return sorted(fl)
 
 
 def _impl_mk(c):
     from audiolazy import MultiKeyDict
     ops = c["ops"]
-    keys, vals = c["keys"], c["vals"]
+    keys, vals, tuples = c["keys"], c["vals"], c.get("tuples", [])
+    u = _U(c)
     start = 0
     d = None
+    alias = []
     if c.get("route") == "ctor":
         # leading single-key assignments with distinct keys go through the constructor
-        init = {}
-        while start < len(ops) and ops[start][0] == "sets" and ops[start][1] not in init:
-            init[ops[start][1]] = ops[start][2]
+        init, names = {}, set()
+        while start < len(ops) and ops[start][0] == "sets" and ops[start][1] not in names:
+            names.add(ops[start][1])
+            init[u.key(ops[start][1])] = u.val(ops[start][2], ops[start][3] if len(ops[start]) > 3 else 0)
             start += 1
+        pristine = dict(init)
         d = MultiKeyDict(init)
+        if init != pristine or list(init) != list(pristine):
+            alias.append("constructor changed its argument")
     if d is None:
         d = MultiKeyDict()
-    ident = lambda v: v
-    view_all = c.get("view", "all") == "all"
+    decoy = MultiKeyDict() if c.get("decoy") else None
+    watched = []       # (dict that was copied, its full view at that moment)
+    level = _view_level(c)
     steps = []
     for i, op in enumerate(ops):
         if i < start:
             steps.append(None)      # inside the constructor: not observable step by step
             continue
         o = op[0]
-        if o == "set":
+        if o in ("set", "sets"):
+            names = op[1] if o == "set" else [op[1]]
+            key = _setkey(u, names, o == "sets")
+            obj = u.val(op[2], op[3] if len(op) > 3 else 0)
+            if decoy is not None:
+                _quiet(lambda: decoy.__setitem__(_setkey(u, [_rot(c, k) for k in names], o == "sets"), obj))
+                _quiet(lambda: (decoy.value2keys(obj), decoy.key2keys(u.key(_rot(c, names[0]))), len(decoy)))
+
             def f():
-                d[tuple(op[1])] = op[2]
-            r = _res(f)
-        elif o == "sets":
-            def f():
-                d[op[1]] = op[2]
-            r = _res(f)
+                d[key] = obj
+            r = _run(f)
         elif o == "del":
+            if decoy is not None:
+                _quiet(lambda: decoy.__delitem__(u.key(_rot(c, op[1]))))
+
             def f():
-                del d[op[1]]
-            r = _res(f)
+                del d[u.key(op[1])]
+            r = _run(f)
         elif o == "get":
-            r = _res(lambda: _val(d[op[1]]))
+            r = _run(lambda: _val(u.cls(d[u.key(op[1])])))
         elif o == "gett":
-            r = _res(lambda: _val(d[tuple(op[1])]))
+            r = _run(lambda: _val(u.cls(d[u.ktuple(op[1])])))
         elif o == "k2k":
-            r = _res(lambda: _keys(d.key2keys(op[1])))
+            r = _run(lambda: {"t": [u.kdec(x) for x in d.key2keys(u.key(op[1]))]})
         elif o == "v2k":
-            r = _keys(d.value2keys(op[1]))
+            r = {"t": [u.kdec(x) for x in d.value2keys(u.val(op[1], 2))]}
         elif o == "len":
+            r = len(d)
+        elif o == "setu":
+            key = _setkey(u, op[1], True)
+            bad = _unhashable(op[2])
+            if decoy is not None:
+                _quiet(lambda: decoy.__setitem__(key, bad))
+
+            def f():
+                d[key] = bad
+            r = _run(f, _expect(op[2], None in op[1]))
+        elif o == "setbk":
+            key = _setkey(u, op[1] + [None] + op[2], True)
+            obj = u.val(op[3], 0)
+
+            def f():
+                d[key] = obj
+            r = _run(f, _TYPE_ERROR)
+        elif o == "bad":
+            w = op[1]
+            if w == "get":
+                r = _run(lambda: _val(u.cls(d[[]])), _NOT_THERE)
+            elif w == "del":
+                def f():
+                    del d[[]]
+                r = _run(f, _NOT_THERE)
+            elif w == "k2k":
+                r = _run(lambda: d.key2keys([]), _NOT_THERE)
+            elif w == "v2k":
+                r = _run(lambda: (d.value2keys([]), None)[1], _NOT_THERE)
+                r = {"err": "Rejected"} if r is None else r       # "no key holds it" is an answer too
+            elif w == "gett":
+                r = _run(lambda: d[(u.key(keys[0]), [])], _NOT_THERE)
+            else:
+                raise ValueError("unknown bad operand %r" % (op,))
+        elif o == "fork":
+            # go on with a copy made by the constructor; the original is watched from now on
+            watched.append((d, _mk_view(d, u, keys, vals, tuples)))
+            d = MultiKeyDict(d)
             r = len(d)
         else:
             raise ValueError("unknown op %r" % (op,))
-        if view_all or i == len(ops) - 1:
-            v = _mk_view(d, keys, vals, c.get("tuples", []), ident, ident)
+        lv = level(i)
+        if lv == 2:
+            v = _mk_view(d, u, keys, vals, tuples)
+            for j, (od, snap) in enumerate(watched):
+                if _mk_view(od, u, keys, vals, tuples) != snap:
+                    alias.append("dict copied at fork %d changed with its copy" % j)
+        elif lv == 1:
+            v = {"items": _items(d, u)}
         else:
             v = {}
+        if alias:
+            v["alias"] = sorted(set(alias))
         v["res"] = r
         steps.append(v)
-    return {"steps": steps}
-
-
-class _Strategies:
-    """distinct, hashable callables; `==` is identity"""
-
-    def __init__(self, n):
-        self.fs = []
-        for i in range(n):
-            self.fs.append(self._make(i))
-
-    @staticmethod
-    def _make(i):
-        def strategy_function(*args, **kwargs):
-            return ("called", i)
-        strategy_function.ident = i
-        return strategy_function
-
-    def enc(self, f):
-        i = getattr(f, "ident", None)
-        if i is None or self.fs[i] is not f:
-            raise TypeError("not one of the test strategies: %r" % (f,))
-        return i
+    return {"steps": steps, "booms": [], "handed": _aliasing(c, u)}
 
 
 def _impl_sd(c):
     from audiolazy import StrategyDict
     _gc_tick()
     ops = c["ops"]
-    keys, vals = c["keys"], c["vals"]
-    st = _Strategies(max(vals) + 1)      # vals always contains the unused identity 9
+    keys, vals, tuples = c["keys"], c["vals"], c.get("tuples", [])
+    u = _U(c)
     sd = StrategyDict("sd_under_test")
+    decoy = StrategyDict("decoy") if c.get("decoy") else None
     hidden = ("__name__", "_keys_dict", "_inv_dict", "default")
     deco = c.get("route") == "decorator"
+    booms = []
+    alias = []
 
     def default_now():
         if "default" in vars(sd):
-            return _val(st.enc(vars(sd)["default"]))
+            return _val(u.cls(vars(sd)["default"]))
         r = sd.default()                    # class-level lambda
         if r is NotImplemented:
             return "NotImplemented"
@@ -393,72 +956,163 @@ def _impl_sd(c):
             return _val(r[1])
         raise TypeError("unexpected call result %r" % (r,))
 
-    view_all = c.get("view", "all") == "all"
+    def attr_name(k):
+        return "default" if k is None else u.key(k)
+
+    def assign(names, obj, single):
+        if deco and len(names) > 0 and all(k is not None for k in names):
+            nm = getattr(obj, "__name__", None)
+            sd.strategy(*u.ktuple(names), keep_name=True)(obj)
+            if getattr(obj, "__name__", None) != nm:
+                alias.append("strategy(keep_name=True) renamed the strategy")
+        else:
+            sd[_setkey(u, names, single)] = obj
+
+    level = _view_level(c)
     steps = []
     for i, op in enumerate(ops):
         o = op[0]
         if o == "set":
-            def f():
-                if deco and len(op[1]) > 0:
-                    sd.strategy(*op[1], keep_name=True)(st.fs[op[2]])
-                elif len(op[1]) == 1:
-                    sd[op[1][0]] = st.fs[op[2]]
-                else:
-                    sd[tuple(op[1])] = st.fs[op[2]]
-            r = _res(f)
+            obj = u.val(op[2], 0)
+            if decoy is not None:
+                _quiet(lambda: decoy.__setitem__(_setkey(u, [_rot(c, k) for k in op[1]], True), obj))
+                _quiet(lambda: (decoy.value2keys(obj), decoy.key2keys(u.key(_rot(c, op[1][0]))), decoy(0), decoy.default))
+            r = _run(lambda: assign(op[1], obj, True), None, booms, i)
         elif o == "del":
+            if decoy is not None:
+                _quiet(lambda: decoy.__delitem__(u.key(_rot(c, op[1]))))
+
             def f():
-                del sd[op[1]]
-            r = _res(f)
+                del sd[u.key(op[1])]
+            r = _run(f, None, booms, i)
         elif o == "get":
-            r = _res(lambda: _val(st.enc(sd[op[1]])))
+            r = _run(lambda: _val(u.cls(sd[u.key(op[1])])), None, booms, i)
         elif o == "getattr":
-            r = _res(lambda: _val(st.enc(getattr(sd, op[1]))))
+            r = _run(lambda: _val(u.cls(getattr(sd, u.key(op[1])))), None, booms, i)
         elif o == "setattr":
-            setattr(sd, "default" if op[1] is None else op[1], st.fs[op[2]])
+            obj = u.val(op[2], 0)
+            if decoy is not None:
+                _quiet(lambda: setattr(decoy, attr_name(None if op[1] is None else _rot(c, op[1])), obj))
+            setattr(sd, attr_name(op[1]), obj)
             r = None
         elif o == "delattr":
+            if decoy is not None:
+                _quiet(lambda: delattr(decoy, attr_name(None if op[1] is None else _rot(c, op[1]))))
+
             def f():
-                delattr(sd, "default" if op[1] is None else op[1])
-            r = _res(f)
+                delattr(sd, attr_name(op[1]))
+            r = _run(f, None, booms, i)
         elif o == "default":
             r = default_now()
         elif o == "call":
             r = call_now()
         elif o == "len":
             r = len(sd)
+        elif o == "setu":
+            bad = _unhashable(op[2])
+            r = _run(lambda: assign(op[1], bad, True), _expect(op[2]))
+        elif o == "setbk":
+            obj = u.val(op[3], 0)
+            r = _run(lambda: assign(op[1] + [None] + op[2], obj, True), _TYPE_ERROR)
+        elif o == "setns":
+            obj = u.val(op[3], 0)
+            key = u.ktuple(op[1]) + (7,) + u.ktuple(op[2])      # the non-string name
+
+            def f():
+                sd[key if len(key) > 1 else key[0]] = obj
+            r = _run(f, _TYPE_ERROR)
+        elif o == "bad":
+            w = op[1]
+            if w == "get":
+                r = _run(lambda: sd[[]], _NOT_THERE)
+            elif w == "del":
+                def f():
+                    del sd[[]]
+                r = _run(f, _NOT_THERE)
+            elif w == "k2k":
+                r = _run(lambda: sd.key2keys([]), _NOT_THERE)
+            elif w == "v2k":
+                r = _run(lambda: (sd.value2keys([]), None)[1], _NOT_THERE)
+                r = {"err": "Rejected"} if r is None else r
+            else:
+                raise ValueError("unknown bad operand %r" % (op,))
         else:
             raise ValueError("unknown op %r" % (op,))
-        if not (view_all or i == len(ops) - 1):
+        lv = level(i)
+        if lv == 0:
             steps.append({"res": r})
             continue
-        v = _mk_view(sd, keys, vals, c.get("tuples", []), st.enc, lambda i: st.fs[i])
-        v["res"] = r
         # name attributes of the instance, restricted to the names of this history's universe (other
         # instance attributes, e.g. private bookkeeping, are not the property's business)
-        v["attrs"] = sorted([k, st.enc(x)] for k, x in vars(sd).items() if k not in hidden and k in keys)
-        v["default"] = default_now()
-        v["call"] = call_now()
-        v["getattr"] = [_res(lambda: _val(st.enc(getattr(sd, k)))) for k in keys]
-        # StrategyDict iterates its values
-        v["sditer"] = sorted(st.enc(x) for x in sd)
-        v["iter"] = sorted(st.enc(x) for x in sd._inv_dict)
+        attrs = sorted([u.kdec(k), u.cls(x)] for k, x in vars(sd).items() if k not in hidden and u.kdec(k) in keys)
+        if lv == 1:
+            v = {"items": _items(sd, u), "attrs": attrs, "default": default_now()}
+        else:
+            v = _mk_view(sd, u, keys, vals, tuples)
+            v["attrs"] = attrs
+            v["default"] = default_now()
+            v["call"] = call_now()
+            ga = v["getattr"] = []
+            for k in keys:
+                try:
+                    ga.append({"v": u.cls(getattr(sd, u.key(k)))})
+                except AttributeError:
+                    ga.append(_ATTR_ERROR)
+            # StrategyDict iterates its values
+            v["sditer"] = sorted(u.cls(x) for x in sd)
+        if alias:
+            v["alias"] = sorted(set(alias))
+        v["res"] = r
         steps.append(v)
-    return {"steps": steps}
+    return {"steps": steps, "booms": booms, "handed": _aliasing(c, u)}
+
+
+_BOOMS = {}      # history -> steps refused on the impl's say-so (read by `request`)
+
+
+def _boom_key(c):
+    return json.dumps([c["ops"], c.get("kf"), c.get("route"), c.get("decoy")])
 
 
 def impl(c):
     try:
-        return _impl_mk(c) if c["entry"] == "mk" else _impl_sd(c)
+        io = _impl_mk(c) if c["entry"] == "mk" else _impl_sd(c)
     except Exception as e:      # anything the history semantics does not predict
-        return {"err": err_kind(e), "msg": str(e)[:200]}
+        io = {"err": err_kind(e), "msg": str(e)[:200]}
+    if c.get("vf") == "picky":
+        if len(_BOOMS) > 20000:
+            _BOOMS.clear()
+        _BOOMS[_boom_key(c)] = io.get("booms", [])
+    return io
 
 
 def request(c):
+    sd = c["entry"] == "sd"
+    booms = ()
+    if c.get("vf") == "picky":
+        k = _boom_key(c)
+        if k not in _BOOMS:
+            impl(c)
+        booms = _BOOMS[k]
     ops = []
-    for op in c["ops"]:
-        if op[0] == "sets":
+    for i, op in enumerate(c["ops"]):
+        o = op[0]
+        if i in booms:
+            ops.append(["rej"] if sd else ["bad"])
+        elif o == "sets":
             ops.append(["set", [op[1]], op[2]])
+        elif o in ("set", "setattr"):
+            ops.append(op[:3])
+        elif o == "setu":
+            ops.append(["setref", op[1]] if sd else ["setu", [k for k in op[1] if k is not None]])
+        elif o == "setbk":
+            ops.append(["setref", op[1]] if sd else ["setbk", op[1], op[2], op[3]])
+        elif o == "setns":
+            ops.append(["rej"])
+        elif o == "bad":
+            ops.append(["rej"] if sd else ["bad"])
+        elif o == "fork":
+            ops.append(["len"])
         else:
             ops.append(op)
     return {"entry": c["entry"], "ops": ops, "keys": c["keys"], "vals": c["vals"],
@@ -468,29 +1122,31 @@ def request(c):
 # ----------------------------------------------------------------------------
 # comparison
 # ----------------------------------------------------------------------------
+_SORTED = ("iter", "items", "keys_dict", "inv_dict", "sditer")
+
+
 def _canon_model(m):
-    if "len" not in m:
-        return {"res": m["res"]}
-    out = {"res": m["res"], "len": m["len"], "iter": sorted(m["iter"]), "items": sorted(m["items"]),
-           "keys_dict": sorted(m["keys_dict"]), "inv_dict": sorted(m["inv_dict"]),
-           "get": m["get"], "k2k": m["k2k"], "v2k": m["v2k"], "gett": m["gett"]}
-    if "attrs" in m:
-        out["attrs"] = sorted([a for a in m["attrs"] if a[0] is not None])
-        out["default"] = m["default"]
-        out["getattr"] = m["getattr"]
-        out["sditer"] = sorted(m["sditer"])
+    out = {}
+    for f in ("res", "len", "iter", "items", "keys_dict", "inv_dict", "get", "k2k", "v2k", "gett",
+              "attrs", "default", "getattr", "sditer"):
+        if f in m:
+            x = m[f]
+            if f == "attrs":
+                x = sorted(a for a in x if a[0] is not None)
+            elif f in _SORTED:
+                x = sorted(x)
+            out[f] = x
     return out
 
 
 def _canon_spec(s):
-    if "len" not in s:
-        return {"res": s["res"]}
-    out = {"res": s["res"], "len": s["len"], "iter": sorted(s["iter"]), "items": sorted(s["items"]),
-           "get": s["get"], "k2k": s["k2k"], "v2k": s["v2k"], "gett": s["gett"]}
-    if "attrs" in s:
-        out["attrs"] = sorted(s["attrs"])
-        out["default"] = s["default"]
-        out["getattr"] = s["getattr"]
+    out = {}
+    for f in ("res", "len", "iter", "items", "get", "k2k", "v2k", "gett", "attrs", "default", "getattr"):
+        if f in s:
+            x = s[f]
+            if f == "attrs" or f in _SORTED:
+                x = sorted(x)
+            out[f] = x
     return out
 
 
@@ -501,6 +1157,8 @@ def _diff_step(iv, ref, kind):
         got = iv.get(f)
         if got != want:
             bad.append(f)
+    if iv.get("alias"):
+        bad.append("alias")
     # derived impl-only observations: the same information seen through other accessors
     if "len" not in ref:
         return bad
@@ -539,24 +1197,35 @@ def first_diff(c, io, drv, kind):
     return None
 
 
-def _has_empty_set(c):
-    return any(o[0] == "set" and o[1] == [] for o in c["ops"])
+def _model_follows_defect(c):
+    """histories outside the refinement theorems (`Op.valid` / `SOp.valid`): the empty key tuple and the
+    assignments that fail half-way today.  There the model follows the code as it is, the spec says
+    what the property wants."""
+    sd = c["entry"] == "sd"
+    for o in c["ops"]:
+        if o[0] == "setbk" or (sd and o[0] == "setu") or (o[0] == "set" and o[1] == []):
+            return True
+    return False
 
 
 def compare(c, io, drv):
     out = []
-    # The empty key tuple is outside the property's quantifier and outside the theorems
-    # (`Op.valid`).  The spec reads `d[()] = v` as "bind no key" = no change; the model follows the
-    # code as it is today.  For such histories only the spec is authoritative (so that a repaired
-    # repo is not reported as a broken correspondence); when impl and spec differ the model
-    # comparison is reported as well.
+    # The empty key tuple and the half-way failing assignments are outside the theorems (`Op.valid`).
+    # The spec says what the property wants (bind no key / change nothing); the model follows the code
+    # as it is today.  For such histories only the spec is authoritative (so that a repaired repo is
+    # not reported as a broken correspondence); when impl and spec differ the model comparison is
+    # reported as well.
+    ds = first_diff(c, io, drv, "spec")
     kinds = ("model", "spec")
-    if _has_empty_set(c) and first_diff(c, io, drv, "spec") is None:
+    if ds is None and _model_follows_defect(c):
         kinds = ("spec",)
     for kind in kinds:
-        d = first_diff(c, io, drv, kind)
+        d = ds if kind == "spec" else first_diff(c, io, drv, kind)
         if d is not None:
             i, bad = d
+            if len(_DIFF_AT) > 50000:
+                _DIFF_AT.clear()
+            _DIFF_AT[id(c)] = min(i, _DIFF_AT.get(id(c), i)) if out else i
             op = c["ops"][i] if 0 <= i < len(c["ops"]) else None
             out.append((kind, "%s: step %d %r: impl differs from %s in %s" % (c["entry"], i, op, kind, ",".join(bad))))
     return out
@@ -573,14 +1242,61 @@ def nontrivial(c, io):
     return some_set and (steps[-1]["len"] > 0 or errs)
 
 
+def _len_bucket(n):
+    if n <= 40:
+        return min(n // 5 * 5, 40)
+    return 100 if n < 1000 else 1000 if n < 2000 else 2000 if n < 4000 else 4000
+
+
+def _rej_tag(c, io, i):
+    """(operation, condition) when step i is an operation that is (to be) refused"""
+    op = c["ops"][i]
+    o = op[0]
+    if o == "setu":
+        return "set", "unhashable-value"
+    if o == "setbk":
+        return "set", "unhashable-key"
+    if o == "setns":
+        return "set", "non-string-name"
+    if o == "bad":
+        return op[1], "unhashable-operand"
+    if i in io.get("booms", ()):
+        return ("set" if o in ("set", "sets") else o), "eq-raises"
+    return None
+
+
+_MUTATORS = ("update", "pop", "popitem", "clear", "setdefault", "get", "copy", "__contains__")
+
+
+def extra_checks(eng):
+    """no obligation, a record of the scope decision: the dict mutators the property does not name are
+    still the ones inherited from dict (they bypass the three maps); if the class starts overriding
+    one, the histogram shows it and the decision should be revisited"""
+    from audiolazy import MultiKeyDict, StrategyDict
+    for name in _MUTATORS:
+        for cls in (MultiKeyDict, StrategyDict):
+            own = any(name in vars(k) for k in cls.__mro__ if k not in (dict, object))
+            eng.count("inherited_from_dict", "%s.%s:%s" % (cls.__name__, name,
+                                                         "overridden" if own else "inherited(out of scope)"))
+    return []
+
+
 def tally(eng, c, io):
     eng.count("entry", c["entry"])
     eng.count("route", c.get("route", "plain"))
-    eng.count("history_len", min(len(c["ops"]) // 5 * 5, 40))
+    eng.count("history_len", _len_bucket(len(c["ops"])))
+    eng.count("value_flavour", "%s:%s" % (c["entry"], c.get("vf") or ("int" if c["entry"] == "mk" else "func")))
+    eng.count("key_flavour", "%s:%s" % (c["entry"], c.get("kf", "plain")))
+    eng.count("shared", "decoy-dict-sharing-value-objects" if c.get("decoy") else
+              "copy-constructor-fork" if any(o[0] == "fork" for o in c["ops"]) else "single-dict")
+    view = c.get("view", "all")
+    eng.count("view", view if isinstance(view, str) else "every-%d" % view["every"])
     if "err" in io:
         eng.count("impl_error", io["err"])
         return
-    for op, s in zip(c["ops"], io["steps"]):
+    for fl in io.get("handed", []) or ["-"]:
+        eng.count("class_stored_through_several_objects", fl)
+    for i, (op, s) in enumerate(zip(c["ops"], io["steps"])):
         if s is None:
             eng.count("op", "ctor-set")
             continue
@@ -596,7 +1312,14 @@ def tally(eng, c, io):
             name = "set/len%d%s" % (min(len(t), 3), "/dup" if len(set(t)) < len(t) else "")
         if name in ("setattr", "delattr") and op[1] is None:
             name += "/default"
+        if name == "setu":
+            name = "setu/" + op[2]
+        if name == "bad":
+            name = "bad/" + op[1]
         eng.count("op", "%s:%s" % (name, tag))
+        rt = _rej_tag(c, io, i)
+        if rt is not None:
+            eng.count("rejected", "%s:%s:%s" % (c["entry"], rt[0], rt[1]))
     for tag in _branches(c, io):
         eng.count("branch", tag)
     last = [s for s in io["steps"] if s is not None]
@@ -612,13 +1335,13 @@ def tally(eng, c, io):
 
 # ----------------------------------------------------------------------------
 # branch coverage of the modelled code, read off the impl's own observations (state before the
-# step + operation); only for histories observed after every step
+# step + operation); only for histories observed (at least lightly) after every step
 # ----------------------------------------------------------------------------
 _EMPTY_VIEW = {"items": [], "attrs": [], "default": "NotImplemented"}
 
 
 def _branches(c, io):
-    if "err" in io or c.get("view", "all") != "all":
+    if "err" in io or c.get("view", "all") == "last":
         return
     prev = _EMPTY_VIEW
     for op, st in zip(c["ops"], io["steps"]):
@@ -677,38 +1400,96 @@ def _branches(c, io):
                     yield "delattr:have-both-equal->del-item"
                 else:
                     yield "delattr:have-both-different->attribute-put-back"
+            elif o == "setu":
+                ks = [k for k in op[1] if k is not None]
+                yield "rejected:unhashable-value:%s" % ("keys-hold-values" if any(k in bound for k in ks) else "keys-unbound")
+            elif o in ("setbk", "setns"):
+                pre = list(op[1]) + (list(group.get(op[3], [])) if c["entry"] == "mk" else [])
+                yield "rejected:%s:%s" % ("unhashable-key" if o == "setbk" else "non-string-name",
+                                          "keys-in-front-hold-values" if any(k in bound for k in pre) else "nothing-in-front")
+            elif o == "bad":
+                yield "rejected:unhashable-operand"
         prev = st
+
+
+_DIFF_AT = {}     # id(case) -> first step at which the impl differed (left by `compare`, read by `shrink`)
 
 
 def shrink(c):
     ops = c["ops"]
     n = len(ops)
-    # drop a suffix, then single operations, then shorten tuples
+    # cut after the step that differed, drop a suffix, then blocks, then single operations, then
+    # shorten tuples, then the dimensions
+    at = _DIFF_AT.get(id(c))
+    if at is not None and 0 <= at < n - 1:
+        yield _recase(c, ops[:at + 1])
     if n > 1:
-        yield _case(c["entry"], ops[:n // 2], c.get("route", "plain"))
-        yield _case(c["entry"], ops[:-1], c.get("route", "plain"))
-    for i in range(n):
-        yield _case(c["entry"], ops[:i] + ops[i + 1:], c.get("route", "plain"))
-    for i, op in enumerate(ops):
-        if op[0] == "set" and len(op[1]) > 1:
-            for j in range(len(op[1])):
-                yield _case(c["entry"], ops[:i] + [["set", op[1][:j] + op[1][j + 1:], op[2]]] + ops[i + 1:],
-                            c.get("route", "plain"))
-    if c.get("route", "plain") not in ("plain", "empty"):
-        yield _case(c["entry"], ops, "plain")
+        yield _recase(c, ops[:n // 2])
+        yield _recase(c, ops[:-1])
+    if n > 24:
+        # delta debugging: remove one block; long histories get few, large blocks per round
+        size = n // 2
+        budget = 24 if n > 150 else 120
+        while size >= 4 and budget > 0:
+            for start in range(0, n, size):
+                yield _recase(c, ops[:start] + ops[start + size:])
+                budget -= 1
+            size //= 2
+    if n <= 150:
+        for i in range(n):
+            yield _recase(c, ops[:i] + ops[i + 1:])
+    if n <= 60:
+        for i, op in enumerate(ops):
+            o = op[0]
+
+            def put(new):
+                return _recase(c, ops[:i] + [new] + ops[i + 1:])
+            if o == "set" and len(op[1]) > 1:
+                for j in range(len(op[1])):
+                    yield put(["set", op[1][:j] + op[1][j + 1:]] + op[2:])
+            if o in ("set", "sets") and len(op) > 3:
+                yield put(op[:3] + [0]) if op[3] != 0 else put(op[:3])
+            if o == "setu":
+                for j in range(len(op[1])):
+                    if len(op[1]) > 1:
+                        yield put(["setu", op[1][:j] + op[1][j + 1:], op[2]])
+                if op[2] != "list":
+                    yield put(["setu", op[1], "list"])
+            if o in ("setbk", "setns"):
+                for j in range(len(op[1])):
+                    yield put([o, op[1][:j] + op[1][j + 1:], op[2], op[3]])
+                for j in range(len(op[2])):
+                    yield put([o, op[1], op[2][:j] + op[2][j + 1:], op[3]])
+            if o == "fork":
+                yield put(["len"])
+        if c.get("route", "plain") not in ("plain", "empty"):
+            yield _recase(c, ops, route="plain")
+        if c.get("decoy"):
+            yield _recase(c, ops, decoy=False)
+        if c.get("kf", "plain") != "plain":
+            yield _recase(c, ops, kf="plain")
+        if c.get("vf") is not None:
+            yield _recase(c, ops, vf=None)
+            if c["entry"] == "sd" and c["vf"] in ("mixed", "picky"):
+                yield _recase(c, ops, vf="bound")
+                yield _recase(c, ops, vf="scale")
+        if c.get("view", "all") != "all":
+            yield _recase(c, ops, view="all")
 
 
 def neighbours(c):
     ops = c["ops"]
     keys = [k for k in c["keys"] if k != "zz"] or ["a"]
     vals = [v for v in c["vals"] if v != 9] or [0]
+    if len(ops) > 60:
+        return
     for i in range(len(ops) + 1):
         for k in keys[:3]:
-            yield _case(c["entry"], ops[:i] + [["del", k]] + ops[i:], "plain")
+            yield _recase(c, ops[:i] + [["del", k]] + ops[i:], route="plain")
             for v in vals[:2]:
-                yield _case(c["entry"], ops[:i] + [["set", [k], v]] + ops[i:], "plain")
+                yield _recase(c, ops[:i] + [["set", [k], v]] + ops[i:], route="plain")
     for i in range(len(ops)):
-        yield _case(c["entry"], ops[:i] + ops[i + 1:], "plain")
+        yield _recase(c, ops[:i] + ops[i + 1:], route="plain")
 
 
 def classify(c, io, drv):
@@ -725,7 +1506,14 @@ def classify(c, io, drv):
     phantom = any(x[0] == [] for x in iv.get("items", [])) or any(x[1] == [] for x in iv.get("inv_dict", []))
     if c["entry"] == "mk" and empty_set and phantom:
         return "mk:set-empty-tuple:value-without-keys"
+    # an operation that is (to be) refused: did it raise, and if so did it leave the dict alone?
+    rt = _rej_tag(c, io, i)
+    if rt is not None:
+        return "%s:%s:%s:%s" % (c["entry"], rt[0], rt[1], "not-rejected" if "res" in bad else "state-changed")
     name = op[0]
     if name in ("setattr", "delattr") and op[1] is None:
         name += "-default"
-    return "%s:%s:%s" % (c["entry"], name, "+".join(sorted(set(bad))))
+    # the fields every view level reports, so that a history observed sparsely keeps its signature
+    # when the shrinker switches to observing every step
+    fields = [f for f in bad if f in LIGHT] or bad
+    return "%s:%s:%s" % (c["entry"], name, "+".join(sorted(set(fields))))
